@@ -156,3 +156,108 @@ def add_mat_from_quat(u, ms):
     hdr = 'impl<T> From<Quaternion<T>> for %s<T> where T: Copy + Zero + One + Mul<Output = T> + Add<Output = T> + Sub<Output = T>' % N
     q = qleaf('q')
     u.take_impl(P, hdr, {'from': C(ensures=eq_all(ms, 'res', mat_from_quat_spec(n, q)))})
+
+
+def qnorm2(q):
+    return X.sum_([c * c for c in q])
+
+
+def qconj(q):
+    return [-q[0], -q[1], -q[2], q[3]]
+
+
+def qrot(q, v):
+    """vector part of q (v,0) conj(q)"""
+    r = hamilton(hamilton(q, list(v.e) + [const(0)]), qconj(q))
+    return SV(r[:3])
+
+
+def qnormalized(q):
+    m = app('sqrt_r', qnorm2(q))
+    return [c / m for c in q]
+
+
+def add_quat_algebra(u):
+    """the rest of the quaternion algebra (C05), Layer 1"""
+    P = 'quaternion::repr_c'
+    gh = 'impl<T>Quaternion<T>'
+    V4 = VEC['Vec4']
+    S, Q, Rr = qleaf('self'), qleaf('q'), qleaf('rhs')
+    for hdr in ('impl<T> From<Vec4<T>> for Quaternion<T>', 'impl<T> From<Quaternion<T>> for Vec4<T>',
+                'impl<T> From<Quaternion<T>> for Vec3<T>'):
+        u.take_impl(P, hdr, mode='G')
+        u.from_given.add(norm(hdr))
+    u.add(P, """impl<T> FromSpecImpl<Vec4<T>> for Quaternion<T> {
+    open spec fn obeys_from_spec() -> bool { true }
+    open spec fn from_spec(v: Vec4<T>) -> Quaternion<T> { Quaternion { x: v.x, y: v.y, z: v.z, w: v.w } }
+}
+impl<T> FromSpecImpl<Quaternion<T>> for Vec4<T> {
+    open spec fn obeys_from_spec() -> bool { true }
+    open spec fn from_spec(v: Quaternion<T>) -> Vec4<T> { Vec4 { x: v.x, y: v.y, z: v.z, w: v.w } }
+}
+impl<T> FromSpecImpl<Quaternion<T>> for Vec3<T> {
+    open spec fn obeys_from_spec() -> bool { true }
+    open spec fn from_spec(v: Quaternion<T>) -> Vec3<T> { Vec3 { x: v.x, y: v.y, z: v.z } }
+}""")
+    for fn in ('into_vec4', 'into_vec3'):
+        n = 4 if fn == 'into_vec4' else 3
+        u.take(P, gh, fn, C(ensures=['res.%s == self.%s' % (f, f) for f in QF[:n]]), mode='G')
+    u.take(P, gh, 'from_vec4', C(ensures=['res.%s == v.%s' % (f, f) for f in QF]), mode='G')
+    u.take(P, gh, 'from_xyzw', C(ensures=['res.%s == %s' % (f, f) for f in QF]), mode='G')
+    u.take(P, gh, 'zero', C(ensures=['res.%s.v@ == 0real' % f for f in QF]))
+    u.take(P, gh, 'conjugate', C(ensures=qeq('res', qconj(S))))
+    n2 = qnorm2(S)
+    u.take(P, gh, 'inverse', C(ensures=qeq('res', [c / n2 for c in qconj(S)])))
+    u.take(P, gh, 'dot', C(ensures=['res.v@ == ' + X.verus(X.sum_([a * b for a, b in zip(S, Q)]))]))
+    u.take(P, gh, 'magnitude_squared', C(ensures=['res.v@ == ' + X.verus(n2)]))
+    u.take(P, gh, 'magnitude', C(ensures=['res.v@ == ' + X.verus(app('sqrt_r', n2))]))
+    u.take(P, gh, 'normalized', C(ensures=qeq('res', qnormalized(S))))
+    k = leaf('rhs.v@')
+    u.take_impl(P, 'impl<T> Mul<T> for Quaternion<T> where T: Mul<Output = T> + Copy', {'mul': C(ensures=qeq('res', [c * k for c in S]))})
+    u.take_impl(P, 'impl<T> Div<T> for Quaternion<T> where T: Copy + Div<Output = T>', {'div': C(ensures=qeq('res', [c / k for c in S]))})
+    u.take_impl(P, 'impl<T> Add for Quaternion<T> where T: Add<Output = T>', {'add': C(ensures=qeq('res', [a + b for a, b in zip(S, Rr)]))})
+    u.take_impl(P, 'impl<T> Sub for Quaternion<T> where T: Sub<Output = T>', {'sub': C(ensures=qeq('res', [a - b for a, b in zip(S, Rr)]))})
+    u.take_impl(P, 'impl<T> Neg for Quaternion<T> where T: Neg<Output = T>', {'neg': C(ensures=qeq('res', [-a for a in S]))})
+    v3 = SV.of(V3, 'rhs')
+    u.take_impl(P, 'impl<T: Real + Add<T, Output = T>> Mul<Vec3<T>> for Quaternion<T>', {'mul': C(ensures=veq(V3, 'res', qrot(S, v3)))})
+    v4 = SV.of(V4, 'rhs')
+    u.take_impl(P, 'impl<T: Real + Add<T, Output = T>> Mul<Vec4<T>> for Quaternion<T>',
+                {'mul': C(ensures=veq(V3, 'res', qrot(S, SV(v4.e[:3]))) + ['res.w == rhs.w'])})
+
+
+def from_to_parts(uu, vv):
+    nn = app('sqrt_r', uu.dot(uu) * vv.dot(vv))
+    w0 = nn + uu.dot(vv)
+    return nn, w0
+
+
+def add_quat_from_to(u):
+    P = 'quaternion::repr_c'
+    gh = 'impl<T>Quaternion<T>'
+    uu, vv = SV.of(V3, 'from.into_spec()'), SV.of(V3, 'to.into_spec()')
+    nn, w0 = from_to_parts(uu, vv)
+    eps = app('eps_r')
+    near = X.verus(w0.lt(nn * X.E('app', (), 'eps_r')))
+    generic = qnormalized(list(uu.cross(vv).e) + [w0])
+    a1 = qnormalized([-uu[1], uu[0], const(0), const(0)])
+    a2 = qnormalized([const(0), -uu[2], uu[1], const(0)])
+    big = '(abs_r(%s) > abs_r(%s))' % (X.verus(uu[0]), X.verus(uu[2]))
+    ens = []
+    ens += ['(!%s) ==> %s' % (near, e) for e in qeq('res', generic)]
+    ens += ['(%s && %s) ==> %s' % (near, big, e) for e in qeq('res', a1)]
+    ens += ['(%s && !%s) ==> %s' % (near, big, e) for e in qeq('res', a2)]
+    u.take(P, gh, 'rotation_from_to_3d', C(requires=['V::obeys_into_spec()'], ensures=ens))
+
+
+def add_quat_angle_axis(u):
+    P = 'quaternion::repr_c'
+    gh = 'impl<T>Quaternion<T>'
+    S = qleaf('self')
+    w = S[3]
+    s = app('sqrt_r', const(1) - w * w)
+    small = X.verus(s.lt(X.E('app', (), 'eps_r')))
+    ang = app('acos_r', w) + app('acos_r', w)
+    ens = ['res.0.v@ == ' + X.verus(ang)]
+    ens += ['%s ==> (res.1.x.v@ == 1real && res.1.y.v@ == 0real && res.1.z.v@ == 0real)' % small]
+    ens += ['(!%s) ==> res.1.%s.v@ == %s' % (small, f, X.verus(S[i] / s)) for i, f in enumerate('xyz')]
+    u.take(P, gh, 'into_angle_axis', C(ensures=ens))
